@@ -69,8 +69,7 @@ func H01a() {
 	var d decoder
 	// Both counting options on: they only add statements (the map updates);
 	// that options never change results is C16's subject.
-	d.opts.unknownFields = true
-	d.opts.unknownMessages = true
+	vCountingOptions(&d)
 	vMakeMap(&d.unknownFields)
 	vMakeMap(&d.unknownMessages)
 	fd := fieldDef{num: vByte(), size: vByte(), btype: types.Base(vByte())}
